@@ -11,7 +11,10 @@ Decided:
 Not decided: wall-time bounds of loops, Add/Mul overflow (wraps in release; the wrapped value then meets an index or
 alloc site which is decided), undefined behaviour inside the two unsafe blocks reached.
 """
+import re
+
 from ..mir import is_user_span, op_place
+from ..prov import derive, index_of
 from .panic_common import run_loops, run_panic
 
 TECHNIQUE = "static analysis: reachability of panic-capable MIR constructs over the monomorphic call graph from the untrusted-input entry points, with dataflow discharges (constant/masked index, induction variable, dominating guard, infallible unwrap), dominator check for the success return and consumer check for I/O results; structural termination arguments for every reachable natural loop (finite iterator, stepped counter tested on exit, stepped bounds-checked index, input-consuming read)"
@@ -203,4 +206,17 @@ def run(ctx):
         if getattr(prog, "_inliner", None) is not None and prog._inliner.inlinable(fn):
             continue
         n += errdisc(ctx, fn)
+        # a buffering writer around a file reports the failure of its last write only from flush() / into_inner(); when
+        # it is merely dropped the error is discarded and apply would report success for data that never reached the file
+        fb_ = prog.body(fn)
+        fix_ = index_of(fb_)
+        for _bi, t_ in fb_.calls():
+            c_ = fix_.callee(t_)
+            if re.search(r"(BufWriter|LineWriter)::<[^>]*>::(new|with_capacity)$", c_) and "std::fs::File" in (t_.get("resn") or "") + " ".join(fb_.locals[op_place(a_)["l"]]["ty"] for a_ in t_["args"] if op_place(a_)):
+                wl = t_["dest"]["l"]
+                flushed = False
+                for _b2, t2 in fb_.calls():
+                    if fix_.callee(t2).split("::")[-1] in ("flush", "into_inner", "into_parts") and t2["args"] and wl in derive(fix_, t2["args"][0]).locals:
+                        flushed = True
+                ctx.ob("ERRDISC", f"{fn}|buffered-writer|flushed", flushed, f"{fn} writes to a file through a buffering writer: it is {'flushed explicitly' if flushed else 'only dropped, which discards the error of the final write'}", fb_.file, int(t_["sp"]["at"].split(":")[-2]))
     ctx.floor("ERRDISC", "I/O results produced in apply and its helpers", n, 30)
